@@ -268,7 +268,7 @@ const defaultSidecar = "default-sidecar"
 
 // DefaultSidecarScopeForGateway builds a SidecarScope contains services and destinationRules for a given gateway/waypoint.
 func DefaultSidecarScopeForGateway(ps *PushContext, configNamespace string) *SidecarScope {
-	services := ps.servicesExportedToNamespace(configNamespace)
+	services := ps.trimHiddenAliases(ps.servicesExportedToNamespace(configNamespace), configNamespace)
 	out := &SidecarScope{
 		Name:                    defaultSidecar,
 		Namespace:               configNamespace,
@@ -402,7 +402,7 @@ func (sc *SidecarScope) collectImportedServices(ps *PushContext, configNamespace
 				// (HostnameAndNamespace contains all services regardless of exportTo).
 				if s, ok := byNamespace[configNamespace]; ok && ps.IsServiceVisible(s, configNamespace) {
 					// This won't overwrite hostnames that have already been found eg because they were requested in hosts
-					if matchedSvc := serviceMatchingPort(s, ilw, ports); matchedSvc != nil {
+					if matchedSvc := serviceMatchingPort(ps.trimHiddenAlias(s, configNamespace), ilw, ports); matchedSvc != nil {
 						sc.appendSidecarServices(servicesAdded, matchedSvc)
 					}
 				} else {
@@ -420,7 +420,7 @@ func (sc *SidecarScope) collectImportedServices(ps *PushContext, configNamespace
 						pickNamespace = pickBestVisibleNamespace
 					}
 					if ns := pickNamespace(ps, byNamespace, configNamespace); ns != "" {
-						if matchedSvc := serviceMatchingPort(byNamespace[ns], ilw, ports); matchedSvc != nil {
+						if matchedSvc := serviceMatchingPort(ps.trimHiddenAlias(byNamespace[ns], configNamespace), ilw, ports); matchedSvc != nil {
 							sc.appendSidecarServices(servicesAdded, matchedSvc)
 						}
 					}
@@ -555,7 +555,7 @@ func convertIstioListenerToWrapper(ps *PushContext, configNamespace string,
 	} else {
 		svces = ps.servicesExportedToNamespace(configNamespace)
 	}
-	out.services = out.selectServices(svces, configNamespace, hostsByNamespace)
+	out.services = out.selectServices(ps.trimHiddenAliases(svces, configNamespace), configNamespace, hostsByNamespace)
 	out.mostSpecificWildcardVsIndex = computeWildcardHostVirtualServiceIndex(out.virtualServices, out.services)
 
 	return out
@@ -592,6 +592,46 @@ func (ps *PushContext) servicesForExactHosts(configNamespace string,
 	}
 	// Sort for deterministic output, matching servicesExportedToNamespace (built from creation-ordered services).
 	return SortServicesByCreationTime(candidates)
+}
+
+// trimHiddenAlias returns s without the aliases (ExternalName services pointing at s, see resolveServiceAliases)
+// that are not exported to namespace: an alias hostname becomes a route domain / SNI of s for every proxy that
+// receives s, so it must obey the exportTo of the ExternalName service it stands for.
+func (ps *PushContext) trimHiddenAlias(s *Service, namespace string) *Service {
+	if s == nil || len(s.Attributes.Aliases) == 0 {
+		return s
+	}
+	visible := make([]NamespacedHostname, 0, len(s.Attributes.Aliases))
+	for _, alias := range s.Attributes.Aliases {
+		if ps.IsServiceVisible(ps.ServiceIndex.HostnameAndNamespace[alias.Hostname][alias.Namespace], namespace) {
+			visible = append(visible, alias)
+		}
+	}
+	if len(visible) == len(s.Attributes.Aliases) {
+		return s
+	}
+	sc := s.ShallowCopy()
+	sc.Attributes.Aliases = visible
+	return sc
+}
+
+// trimHiddenAliases applies trimHiddenAlias to a list of services; the input slice is not modified.
+func (ps *PushContext) trimHiddenAliases(services []*Service, namespace string) []*Service {
+	var out []*Service
+	for i, s := range services {
+		t := ps.trimHiddenAlias(s, namespace)
+		if t != s && out == nil {
+			out = make([]*Service, len(services))
+			copy(out, services)
+		}
+		if out != nil {
+			out[i] = t
+		}
+	}
+	if out == nil {
+		return services
+	}
+	return out
 }
 
 // GetEgressListenerForRDS returns the egress listener corresponding to
